@@ -65,17 +65,21 @@ Inductive case02x :=
 | CBytes (c : case_bytes)
 | CPlan (c : case_plan).      (* what one auto / auto-schedule call planned vs the planner of Model/NoopPlan.v *)
 
-Definition model_obs_c02x (c : case02x) : list N :=
+(* zl: does the source count a zero-byte checkpoint sidecar as absent (Model/NoopPlan.v `seen`); the case
+   files use check_case_c02g / model_obs_c02g of Gen/Effects.v, which pass the value read off the source *)
+Definition model_obs_c02x_zl (zl : bool) (c : case02x) : list N :=
   match c with
   | CStore s => model_obs_c02 s
   | CStore2 s => model_obs_c02b s
   | CBytes b => model_obs_bytes b
-  | CPlan c => model_obs_plan c
+  | CPlan c => model_obs_plan zl c
   end.
-Definition check_case_c02x (c : case02x) : bool :=
+Definition check_case_c02x_zl (zl : bool) (c : case02x) : bool :=
   match c with
   | CStore s => check_case_c02 s
   | CStore2 s => lN_eqb (model_obs_c02b s) (c2b_expect s)
   | CBytes b => lN_eqb (model_obs_bytes b) (cb_expect b)
-  | CPlan c => check_case_plan c
+  | CPlan c => check_case_plan zl c
   end.
+Definition model_obs_c02x := model_obs_c02x_zl false.
+Definition check_case_c02x := check_case_c02x_zl false.
